@@ -24,7 +24,7 @@ import numpy as np
 import pandas as pd
 
 from . import tlcrun
-from .core import Machinery
+from .core import Machinery, names_in
 from .universe import flodym, Dimension, DimensionSet
 
 NAMES = {"t": "Time", "r": "Region", "e": "Element", "g": "Good"}
@@ -525,7 +525,9 @@ class Program:
         raise_error = rnd.random() < 0.5
         raised, msgs = self.logged(lambda: self.mfa.check_mass_balance(tolerance=tol_arg, raise_error=raise_error))
         text = raised if raised is not None else " ".join(msgs)
-        failing = re.findall(r"(sysenv|P\d+) \(max error", text or "")
+        failing = names_in(text, self.model["procs"])
+        if (raised is not None or msgs) and not failing:
+            failing = ["?"]         # the report names no process at all: only the verdict counts
         self.ev(op="check_mb", tol="half" if form == "half" else "strict", outcome="fail" if (raised is not None or msgs) else "ok",
                 failing=failing)
         self.events[-1]["raise"] = raise_error
@@ -545,9 +547,9 @@ class Program:
             raised, msgs = self.logged(lambda: self.mfa.check_flows(raise_error=raise_error))
         flagged = []
         for m in msgs:
-            g = re.search(r"(?:NaN values found in|Negative value in) flow (.*)!", m)
-            if g:
-                flagged.append(g.group(1).split("!")[0])
+            flagged += names_in(m, names)
+        if msgs and not flagged:
+            flagged = ["?"]
         self.ev(op="check_flows", outcome="fail" if (raised is not None or msgs) else "ok", exc=exc, flagged=sorted(set(flagged)))
         self.events[-1]["raise"] = raise_error
 
@@ -913,7 +915,9 @@ class ExampleProgram(Program):
         raise_error = rnd.random() < 0.5
         raised, msgs = self.logged(lambda: self.mfa.check_mass_balance(tolerance=tol_arg, raise_error=raise_error))
         text = raised if raised is not None else " ".join(msgs)
-        failing = [p for p in self.model["procs"] if f"{p} (max error" in (text or "")]
+        failing = names_in(text, self.model["procs"])
+        if (raised is not None or msgs) and not failing:
+            failing = ["?"]
         self.ev(op="check_mb", tol="half" if form == "half" else "strict", outcome="fail" if (raised is not None or msgs) else "ok", failing=failing)
         self.events[-1]["raise"] = raise_error
 
